@@ -477,3 +477,57 @@ func TestC12Conc(t *testing.T) {
 		kinds: map[string]int{"new_task": 20, "set": 22, "claim": 8, "sequence": 10, "plan": 22, "prune_yes": 8, "compact": 6, "new_epic": 4}, minN: 2, maxN: 4, setup: setupProfile,
 	})
 }
+
+// genPruneRace draws one prune --yes plus writers that change what is finished: reopening
+// a done task, finishing an open one, adding a child to an epic whose children are all
+// finished, moving a task into an empty epic.
+func genPruneRace(t *rapid.T, w *World, pre *Snapshot, n int) []Op {
+	g := refGen{t, w, pre}
+	tasks := g.ids(func(it *Item) bool { return !it.IsEpic })
+	epics := g.ids(func(it *Item) bool { return it.IsEpic })
+	ops := []Op{{N: 1000, Kind: "prune_yes", Agent: "pruner"}}
+	for i := 1; i < n; i++ {
+		op := Op{N: 1000 + i, Mode: "json", Agent: oneOf(t, agents, "agent")}
+		switch {
+		case len(epics) > 0 && pct(t, 30, "race.child"):
+			e := g.ref(oneOf(t, epics, "epic"))
+			op.Kind, op.Title, op.Epic = "new_task", sp(w.UniqueTitle("late child")), &e
+		case len(tasks) > 0:
+			id := oneOf(t, tasks, "target")
+			it := pre.Items[id]
+			r := g.ref(id)
+			op.Kind, op.Target = "set", &r
+			switch {
+			case finished(it.State):
+				op.State = sp("todo")
+			case len(epics) > 0 && pct(t, 35, "race.move"):
+				e := g.ref(oneOf(t, epics, "moveto"))
+				op.Epic = &e
+			case transitionTable[it.State]["done"]:
+				op.State = sp("done")
+			default:
+				op.Title = sp(w.UniqueTitle("renamed"))
+			}
+		default:
+			op.Kind, op.Title = "new_task", sp(w.UniqueTitle("late"))
+		}
+		ops = append(ops, op)
+	}
+	// shuffle positions so that prune is not always command 0
+	perm := rapid.Permutation(seqInts(len(ops))).Draw(t, "perm")
+	out := make([]Op, len(ops))
+	for i, p := range perm {
+		out[i] = ops[p]
+		out[i].N = 1000 + i
+	}
+	return out
+}
+
+func TestC09Conc(t *testing.T) {
+	runSchedTest(t, schedSpec{
+		prop: "C09", test: "TestC09Conc",
+		rule: "a generated store with finished and open tasks in and outside epics, one `prune --yes` and 1-2 concurrent writers that change what is finished (reopen a done task, finish an open one, add a child to an epic, move a task into an epic), parked / resumed by the controller or free-running; oracle: linearizability against the reference model - the reported pruned_ids are exactly the finished work at prune's position in the serial order, nothing unfinished and no epic with a child is removed; non-trivial = executions overlap and at least one park landed (or free-running)",
+		genOps: genPruneRace, minN: 2, maxN: 3,
+		setup: Profile{Name: "prune-setup", Weights: map[string]int{"new_task": 44, "new_epic": 12, "set": 30, "sequence": 8, "plan": 3}, EpicPct: 55, StatePool: []string{"done", "done", "canceled", "todo", "blocked"}, StatePct: 60, ClaimPct: -1},
+	})
+}
